@@ -21,6 +21,9 @@ func Canon(v Val) string {
 	case *Obj:
 		var fs []string
 		for _, f := range sortedFields(x) {
+			if _, isNil := x.Fields[f].(Nil); isNil {
+				continue // `F: nil` in a literal is the same object as the literal without F
+			}
 			fs = append(fs, f+": "+Canon(x.Fields[f]))
 		}
 		return "&" + x.TName + "{" + strings.Join(fs, ", ") + "}"
